@@ -486,16 +486,18 @@ class Impl:
         self.ctx, self.exe = ctx, exe
         self.n = 0
         self.compiled = 0
+        self.flags = []
 
     def build(self, cases):
         """lexical harness: compile the batch it is handed"""
         ctx = self.ctx
         self.n += 1
-        src = os.path.join(ctx.tmp, 'exn_lex_%d.c' % self.n)
+        tag = 'O2' if self.flags else 'default'
+        src = os.path.join(ctx.tmp, 'exn_lex_%s_%d.c' % (tag, self.n))
         with open(src, 'w') as fh:
             fh.write(lex_source(cases))
         self.compiled += len(cases)
-        return ctx.build_harness(src, name='exn_lex_%d' % self.n, whitebox='Exception')
+        return ctx.build_harness(src, tag=tag, name='exn_lex_%d' % self.n, whitebox='Exception', extra=self.flags)
 
     def raw(self, exe, inputs, watchdog):
         env = dict(os.environ, H_TIMEOUT=str(watchdog))
@@ -665,6 +667,19 @@ def run(ctx):
         feed(d, ex, 20000)
         ctx.cov['exhaustive'] = {'what': 'every tree with <= %d nodes (skip, tick, throw, seq, try) over 2 kinds and all 4 filter subsets' % mn,
                                  'trees': len(ex), 'bounded_search_only': True}
+
+    if not quick:
+        # the same library and harnesses compiled with -O2 (setjmp/longjmp under the optimiser)
+        ctx.build_lib('O2', cflags=['-O2'])
+        h2 = ctx.build_harness('exn_interp.c', tag='O2', whitebox='Exception', extra=['-O2'])
+        d2 = TreeDiff(ctx, 'exn_interp_O2', Impl(ctx, h2), run_model, run_spec, oracle, corr, nontrivial)
+        feed(d2, CORPUS + bound + [g.case(25) for _ in range(20000)] + [g.deep(64) for _ in range(100)], 5000)
+        lex2 = Impl(ctx)
+        lex2.flags = ['-O2']
+        dl2 = TreeDiff(ctx, 'exn_lexical_O2', lex2, run_model, run_spec, oracle, corr, nontrivial)
+        feed(dl2, CORPUS + [g.case(25) for _ in range(600)], 400)
+        d2.report(None)
+        dl2.report(None)
 
     def extra(dd):
         feed(dd, [g.case(12) for _ in range(10 * min(n, 3000))], 500)
